@@ -21,6 +21,23 @@ Example C16_nonvacuous :
   spec_read r (ui_any r) None (IKey 0 0) = VB true /\ ui_any (mkRaw [] [] (0%Q, 0%Q) (0%Q, 0%Q) [] [0; 0]) = false.
 Proof. repeat split. Qed.
 
+(* ---- app stage: the executable judgement of coq/Check is sound for the model on every scenario of the profile, and transfers
+   to every trace that agrees with the model's run ---- *)
+From BEI Require Check.C15c Check.C05c Proofs.JudgeC15P.
+Theorem C16_app_judgement_sound : forall sc, JudgeC15P.profile_C15b sc = true -> C15c.ok_ext (sc, App.trace (App.run sc)) = 0%Z.
+Proof. exact JudgeC15P.C15_app_judgement_sound. Qed.
+
+Theorem C16_app_judgement_transfer : forall sc t, JudgeC15P.profile_C15b sc = true -> JudgeC15P.transfer_side sc = true -> App.agree_full (sc, t) = true -> C15c.ok_ext (sc, t) = 0%Z.
+Proof. exact JudgeC15P.C15_app_judgement_transfer. Qed.
+
+
+(* ---- app stage: the executable judgement of coq/Check is sound for the model on every scenario of the profile, and transfers
+   to every trace that agrees with the model's run ---- *)
+From BEI Require Proofs.JudgeProfiles.
+Theorem C16_app_judgement_sound_all : forall sc, JudgeProfiles.prof_C15 sc = true -> C15c.ok_ext (sc, App.trace (App.run sc)) = 0%Z.
+Proof. exact JudgeProfiles.C15_sound_all. Qed.
+
+
 Print Assumptions C16_flag_per_frame.
 Print Assumptions C16_read.
 Print Assumptions C16_mouse_masked.
@@ -53,3 +70,6 @@ Proof.
   - intros j Hui. rewrite Hr, Hui. reflexivity.
 Qed.
 Print Assumptions C16_every_read_of_a_frame.
+Print Assumptions C16_app_judgement_sound.
+Print Assumptions C16_app_judgement_transfer.
+Print Assumptions C16_app_judgement_sound_all.
